@@ -1,15 +1,135 @@
 /-
-C20 — hashing and randomness plumbing conform to their standards.  (property theorems only)
+C20 — hashing and randomness plumbing conform to their standards.  (property theorems + non-vacuity examples)
+
+Layers (see notes/C20.md):
+  * `SqiGen.Keccak`     generated on every run from src/common/generic/fips202.c (tie T): the permutation's
+                        two-round loop body, the round-constant table, ROL, the rates and domain bytes the SHAKE
+                        wrappers pass.
+  * `SqiModel.Sponge`   hand model of keccak_absorb / keccak_squeezeblocks / keccak_inc_* / shake128 / shake256
+                        (tie H: run against the real functions on every check run).
+  * `SqiModel.Fips202`  FIPS 202 specification (θ ρ π χ ι, rc(t), offsets, pad10*1, sponge, SHAKE128/256).
+  * `SqiModel.Drbg`, `SqiModel.Aes`  SP 800-90A CTR_DRBG and FIPS 197 specifications, DRBG model (tie H).
+  * `SqiModel.Challenge` model of hash_to_challenge and secure clear (tie H).
+Assumptions that are *not* theorems: collision resistance of SHAKE256; AES internals of aes_c.c (correspondence
+only); that the compiler keeps the store in sqisign_secure_clear (observed at run time).
 -/
 import SqiProofs.KeccakPerm
+import SqiProofs.SpongeMain
+import SqiProofs.Challenge
+import SqiProofs.C20Kat
 
 namespace SqiProps.C20
-open SqiModel
+open SqiModel SqiModel.Sponge
 
-/-- (a) `KeccakF1600_StatePermute`, as re-extracted from fips202.c on every run (12 double rounds over the
+/-! ## (a) the permutation -/
+
+/-- `KeccakF1600_StatePermute`, as re-extracted from fips202.c on every run (12 double rounds over the
     extracted constant table), equals the 24-round Keccak-f[1600] of FIPS 202 (θ ρ π χ ι with round constants
     from the LFSR rc(t) and rotation offsets from the (t+1)(t+2)/2 walk) for every state. -/
 theorem keccakF_gen_eq_spec (s : Fips202.State) : SqiGen.Keccak.keccakF s = Fips202.keccakF s :=
   SqiProofs.Keccak.keccakF_gen_eq_spec s
+
+/-- the rotation used by the specification really is FIPS 202's bit-level rule: bit z of the rotated lane is
+    bit (z − n) mod 64 of the original -/
+theorem rotl_bit (a : UInt64) (n z : Nat) (hz : z < 64) :
+    (Fips202.rotl a n).toBitVec.getLsbD z = a.toBitVec.getLsbD ((z + 64 - n % 64) % 64) :=
+  SqiProofs.Keccak.rotl_getBit a n z hz
+
+/-! ## (b) the sponge plumbing, for the constants the C wrappers actually pass -/
+
+/-- what the theorems need to know about a (rate, domain byte) pair -/
+abbrev GoodParams (r : Nat) (d : UInt8) : Prop := 0 < r ∧ r % 8 = 0 ∧ r ≤ 200 ∧ d ||| 128 = d ^^^ 128
+
+/-- every rate / domain byte extracted from the shake128_* / shake256_* wrappers is admissible, all wrappers of a
+    family agree, and they are the FIPS 202 values (168 / 136, suffix 1111 ‖ first pad bit = 0x1F) -/
+theorem extracted_params :
+    SqiGen.Keccak.shake256_absorb_rate = 136 ∧ SqiGen.Keccak.shake256_squeezeblocks_rate = 136 ∧
+    SqiGen.Keccak.shake256_oneshot_rate = 136 ∧ SqiGen.Keccak.shake256_inc_absorb_rate = 136 ∧
+    SqiGen.Keccak.shake256_inc_finalize_rate = 136 ∧ SqiGen.Keccak.shake256_inc_squeeze_rate = 136 ∧
+    SqiGen.Keccak.shake256_absorb_domain = 0x1F ∧ SqiGen.Keccak.shake256_inc_finalize_domain = 0x1F ∧
+    SqiGen.Keccak.shake128_absorb_rate = 168 ∧ SqiGen.Keccak.shake128_squeezeblocks_rate = 168 ∧
+    SqiGen.Keccak.shake128_oneshot_rate = 168 ∧ SqiGen.Keccak.shake128_inc_absorb_rate = 168 ∧
+    SqiGen.Keccak.shake128_inc_finalize_rate = 168 ∧ SqiGen.Keccak.shake128_inc_squeeze_rate = 168 ∧
+    SqiGen.Keccak.shake128_absorb_domain = 0x1F ∧ SqiGen.Keccak.shake128_inc_finalize_domain = 0x1F ∧
+    GoodParams 136 0x1F ∧ GoodParams 168 0x1F := by decide
+
+/-- `absorb_chunks`: absorbing **any chunking** of a message through keccak_inc_absorb and finalizing leaves exactly
+    the state (and `s_inc[25] = 0`) that the one-shot keccak_absorb of the concatenation leaves.
+    (Induction over the chunk list with invariant `s_inc[25] < r`; any permutation f.) -/
+theorem absorb_chunks (f : Fips202.State → Fips202.State) (r : Nat) (d : UInt8) (h : GoodParams r d)
+    (chunks : List (List UInt8)) :
+    incFinalize r d (incAbsorbMany f r incInit chunks) = ⟨keccakAbsorb f r chunks.flatten d, 0⟩ :=
+  SqiProofs.Sponge.absorb_chunks f r h.1 h.2.1 h.2.2.1 d h.2.2.2 chunks
+
+/-- the bookkeeping invariant: after any absorb sequence from keccak_inc_init, `s_inc[25] < r` -/
+theorem absorb_pos_lt (f : Fips202.State → Fips202.State) (r : Nat) (h0 : 0 < r) (chunks : List (List UInt8)) :
+    (incAbsorbMany f r incInit chunks).pos < r :=
+  SqiProofs.Sponge.absorb_pos_lt f r h0 chunks
+
+/-- `squeeze_chunks`: **any split** of an output request through keccak_inc_squeeze yields the same bytes and the same
+    final state as a single request of the total length … -/
+theorem squeeze_chunks (f : Fips202.State → Fips202.State) (r : Nat) (h0 : 0 < r) (st : IncState) (hp : st.pos < r)
+    (ns : List Nat) : incSqueezeMany f r st ns = incSqueeze f r st ns.sum :=
+  SqiProofs.Sponge.squeeze_chunks f r h0 st hp ns
+
+/-- … and a shorter request returns a prefix of a longer one (one stream) -/
+theorem squeeze_prefix (f : Fips202.State → Fips202.State) (r : Nat) (h0 : 0 < r) (st : IncState) (hp : st.pos < r)
+    (a b : Nat) : (incSqueeze f r st a).1 = ((incSqueeze f r st (a + b)).1).take a :=
+  SqiProofs.Sponge.squeeze_prefix f r h0 st hp a b
+
+theorem genF_eq : SqiGen.Keccak.keccakF = Fips202.keccakF := funext keccakF_gen_eq_spec
+
+/-- `shake256_eq_spec`: the model of `SHAKE256` / `shake256` (one-shot: keccak_absorb, whole blocks, tail through a
+    temporary block), run with the generated permutation and the extracted constants, equals FIPS 202 SHAKE256 for
+    every message and every output length (no side condition: empty message, lengths r−1, r, r+1, … included). -/
+theorem shake256_eq_spec (msg : List UInt8) (outlen : Nat) :
+    shakeOneShot SqiGen.Keccak.keccakF SqiGen.Keccak.shake256_absorb_rate SqiGen.Keccak.shake256_absorb_domain
+      SqiGen.Keccak.shake256_squeezeblocks_rate SqiGen.Keccak.shake256_oneshot_rate msg outlen
+      = Fips202.shake256 msg outlen := by
+  have h := extracted_params
+  rw [h.1, h.2.1, h.2.2.1, h.2.2.2.2.2.2.1, genF_eq]
+  exact SqiProofs.Sponge.oneShot_eq_spec Fips202.keccakF 136 (by decide) (by decide) (by decide) 0x1F msg outlen
+
+theorem shake128_eq_spec (msg : List UInt8) (outlen : Nat) :
+    shakeOneShot SqiGen.Keccak.keccakF SqiGen.Keccak.shake128_absorb_rate SqiGen.Keccak.shake128_absorb_domain
+      SqiGen.Keccak.shake128_squeezeblocks_rate SqiGen.Keccak.shake128_oneshot_rate msg outlen
+      = Fips202.shake128 msg outlen := by
+  have h := extracted_params
+  rw [h.2.2.2.2.2.2.2.2.1, h.2.2.2.2.2.2.2.2.2.1, h.2.2.2.2.2.2.2.2.2.2.1, h.2.2.2.2.2.2.2.2.2.2.2.2.2.2.1, genF_eq]
+  exact SqiProofs.Sponge.oneShot_eq_spec Fips202.keccakF 168 (by decide) (by decide) (by decide) 0x1F msg outlen
+
+/-- the incremental API (`shake256_inc_init/absorb/finalize/squeeze`), for any chunking of the message and any split
+    of the output request, produces FIPS 202 SHAKE256 of the concatenation, truncated to the total request -/
+theorem shake256_inc_eq_spec (chunks : List (List UInt8)) (reqs : List Nat) :
+    (incSession SqiGen.Keccak.keccakF SqiGen.Keccak.shake256_inc_absorb_rate SqiGen.Keccak.shake256_inc_finalize_rate
+      SqiGen.Keccak.shake256_inc_squeeze_rate SqiGen.Keccak.shake256_inc_finalize_domain chunks reqs).1
+      = Fips202.shake256 chunks.flatten reqs.sum := by
+  have h := extracted_params
+  rw [h.2.2.2.1, h.2.2.2.2.1, h.2.2.2.2.2.1, h.2.2.2.2.2.2.2.1, genF_eq]
+  exact SqiProofs.Sponge.incSession_eq_spec Fips202.keccakF 136 (by decide) (by decide) (by decide) 0x1F (by decide) chunks reqs
+
+theorem shake128_inc_eq_spec (chunks : List (List UInt8)) (reqs : List Nat) :
+    (incSession SqiGen.Keccak.keccakF SqiGen.Keccak.shake128_inc_absorb_rate SqiGen.Keccak.shake128_inc_finalize_rate
+      SqiGen.Keccak.shake128_inc_squeeze_rate SqiGen.Keccak.shake128_inc_finalize_domain chunks reqs).1
+      = Fips202.shake128 chunks.flatten reqs.sum := by
+  have h := extracted_params
+  rw [h.2.2.2.2.2.2.2.2.2.2.2.1, h.2.2.2.2.2.2.2.2.2.2.2.2.1, h.2.2.2.2.2.2.2.2.2.2.2.2.2.1,
+    h.2.2.2.2.2.2.2.2.2.2.2.2.2.2.2.1, genF_eq]
+  exact SqiProofs.Sponge.incSession_eq_spec Fips202.keccakF 168 (by decide) (by decide) (by decide) 0x1F (by decide) chunks reqs
+
+/-! ### non-vacuity: NIST example values, kernel-evaluated in SqiProofs.C20Kat (specification only) -/
+example : Fips202.shake256 [] 32 = [0x46, 0xb9, 0xdd, 0x2b, 0x0b, 0xa8, 0x8d, 0x13, 0x23, 0x3b, 0x3f, 0xeb, 0x74, 0x3e,
+    0xeb, 0x24, 0x3f, 0xcd, 0x52, 0xea, 0x62, 0xb8, 0x1b, 0x82, 0xb5, 0x0c, 0x27, 0x64, 0x6e, 0xd5, 0x76, 0x2f] :=
+  SqiProofs.C20Kat.kat_shake256_empty
+example : Fips202.shake128 [] 32 = [0x7f, 0x9c, 0x2b, 0xa4, 0xe8, 0x8f, 0x82, 0x7d, 0x61, 0x60, 0x45, 0x50, 0x76, 0x05,
+    0x85, 0x3e, 0xd7, 0x3b, 0x80, 0x93, 0xf6, 0xef, 0xbc, 0x88, 0xeb, 0x1a, 0x6e, 0xac, 0xfa, 0x66, 0xef, 0x26] :=
+  SqiProofs.C20Kat.kat_shake128_empty
+/-- hence, through `shake256_eq_spec`, the *model of the C code* produces the NIST value -/
+example : shakeOneShot SqiGen.Keccak.keccakF SqiGen.Keccak.shake256_absorb_rate SqiGen.Keccak.shake256_absorb_domain
+      SqiGen.Keccak.shake256_squeezeblocks_rate SqiGen.Keccak.shake256_oneshot_rate [] 32
+    = [0x46, 0xb9, 0xdd, 0x2b, 0x0b, 0xa8, 0x8d, 0x13, 0x23, 0x3b, 0x3f, 0xeb, 0x74, 0x3e,
+    0xeb, 0x24, 0x3f, 0xcd, 0x52, 0xea, 0x62, 0xb8, 0x1b, 0x82, 0xb5, 0x0c, 0x27, 0x64, 0x6e, 0xd5, 0x76, 0x2f] := by
+  rw [shake256_eq_spec]; exact SqiProofs.C20Kat.kat_shake256_empty
+example : GoodParams 136 0x1F ∧ GoodParams 168 0x1F ∧ GoodParams 136 0x06 := by decide
 
 end SqiProps.C20
